@@ -15,7 +15,7 @@ def fmt_bit(nb):
     return n if i is None else "%s[%d]" % (n, i)
 
 
-def gen_design(r, features=("cname", "attr", "param", "names", "latch", "conn", "undeclared", "bus", "consts")):
+def gen_design(r, features=("cname", "attr", "param", "names", "latch", "conn", "undeclared", "bus", "consts"), conn_top_bits_only=False):
     uid = [0]
 
     def fresh(prefix):
@@ -132,6 +132,16 @@ def gen_design(r, features=("cname", "attr", "param", "names", "latch", "conn", 
         bits = [nb for nb in nets if nb[1] is not None and nb not in outputs and nb not in inputs]
         if bits and sc and "bus" in features and r.random() < 0.5:
             # a bus bit joined to a scalar net or to a bit of ANOTHER bus with a different index
+            if conn_top_bits_only:
+                # (fence of finding eblif-conn-on-bus-bit-renumbers-bus: only the highest bit of a bus is joined)
+                top_of = {}
+                for nb in nets:
+                    if nb[1] is not None:
+                        top_of[nb[0]] = max(top_of.get(nb[0], -1), nb[1])
+                bits = [nb for nb in bits if nb[1] == top_of[nb[0]]] or bits[:0]
+                if not bits:
+                    return {"top": fresh("top"), "inputs": inputs, "outputs": outputs, "models": models, "items": items, "conns": conns,
+                            "comments": []}
             a = r.choice(bits)
             others = [nb for nb in bits if nb[0] != a[0] and nb[1] != a[1]]
             b = r.choice(others) if others and r.random() < 0.6 else r.choice(sc)
